@@ -9,6 +9,31 @@ import os
 from lib.vlib import Inconclusive
 
 
+def peer_stage(ctx, n=None):
+    """Peer-supplied CBOR values (any item a peer can put into a service-info value) handed to modules
+    backed by a plugin: the adapter returns an error or hands the plugin lines, it never panics or
+    hangs (C10's clause for the TO2 roles when modules are plugins). Reported under ctx.prop."""
+    wd = ctx.sub("plugpeer")
+    rp = os.path.join(wd, "peer.json")
+    n = n or (3000 if ctx.quick() else 60000)
+    ctx.run_vh(["plugin-peer", "-n", n, "-seed", ctx.seed, "-out", rp], timeout=3000)
+    with open(rp) as f:
+        res = json.load(f)
+    outcomes = {}
+    for x in res:
+        outcomes[x["outcome"]] = outcomes.get(x["outcome"], 0) + 1
+        if x["outcome"] in ("crash", "hang"):
+            frame = (x.get("detail") or "").split("@")[-1].strip()
+            key = "panic|%s|plugin-module|peer-value" % frame if x["outcome"] == "crash" else "hang|plugin-module|%s" % x["role"]
+            ctx.violation(key, "a peer-supplied service-info value %s a plugin-backed %s module: %s" % (
+                "crashes" if x["outcome"] == "crash" else "hangs", x["role"], json.dumps(x)[:600]), x)
+    ctx.notes["plugin_module_peer_values"] = outcomes
+    if outcomes.get("delivered", 0) < n // 10 or outcomes.get("error", 0) < n // 20:
+        raise Inconclusive("plugin peer stage is vacuous: %r" % outcomes)
+    ctx.cov["evaluations"] += len(res)
+    return len(res)
+
+
 def run(ctx):
     quick = ctx.quick()
     ctx.build_vh()
@@ -55,6 +80,7 @@ def run(ctx):
         ctx.violation(key, "value handed to the plugin is not the value received: %s" % json.dumps(s)[:1200], s)
     ctx.cov["traces_validated_against_impl"] = len(res) + len(sends)
     ctx.cov["evaluations"] = len(res) + len(sends)
+    peer_stage(ctx)
     ctx.cov["distinct_nontrivial"] = len(set((x["role"], x["expres"], len(x["expected"] or [])) for x in res)) + len(set(s["value"] for s in sends))
     ctx.cov["rule"] = "one evaluation = one conversation (plugin output up to the bound, incl. malformed lines and exit) replayed on the real adapter and compared with the specification's observations and result, or one value sent through Receive/HandleInfo and parsed back"
     ctx.sample(behs[len(behs) // 2])
